@@ -97,6 +97,7 @@ class FnInfo:
 
 class Translator:
     def __init__(self):
+        self.table = []      # (lean name, arity, kind) of every generated function, for `dispatch`
         self.fns = {}        # python name -> FnInfo (module-level functions)
         self.classes = {}    # class name -> dict(bases, init_owner, attrs, fields, methods)
         self.out = []
@@ -446,6 +447,7 @@ class Translator:
         rty = "PV" if kind == "V" else "List PV"
         self.out.append(f"/-- `{path}` : `{qual}` -/")
         self.out.append(f"def {lean_name} {sig} : {rty} :=\n{body}\n")
+        self.table.append((lean_name, len(allp), kind))
         info = FnInfo(lean_name, kept, defaults, kind, bool(symbols) or bool(opaque) or bool(selfparams))
         if is_init:
             info.extra = False
@@ -526,6 +528,17 @@ class Translator:
                 self.module(repo, path, spec)
             except Unsupported as u:
                 raise Unsupported(f"{path}: {u}")
+        self.out.append("/-- call a generated function by name (used by the line-protocol driver: the correspondence suite\n"
+                        "runs every translated function and the real Python function on the same arguments) -/")
+        self.out.append("def dispatch (expf : Rat → Rat) (fn : String) (args : List PV) : Option (List PV) :=")
+        self.out.append("  match fn, args with")
+        for name, ar, kind in self.table:
+            vs = [f"a{i}" for i in range(ar)]
+            call = " ".join([name, "expf"] + vs)
+            rhs = f"[{call}]" if kind == "V" else f"({call})"
+            self.out.append(f'  | "{name}", [{", ".join(vs)}] => some {rhs}')
+        self.out.append("  | _, _ => none")
+        self.out.append("")
         self.out.append("end BBGen")
         return "\n".join(self.out) + "\n"
 
